@@ -84,6 +84,8 @@ pub struct GenCfg {
     /// per-mille chance that a client's entropy for its report begins with a burst of zero or
     /// all-one bytes (rare but legal output of a healthy source; 0 = never)
     pub entropy_burst: u64,
+    /// per-mille chance that a client's entropy source FAILS while it builds its report (system-call failure)
+    pub entropy_failure: u64,
 }
 
 impl GenCfg {
@@ -108,6 +110,7 @@ impl GenCfg {
             count_offsets: vec![-1, 0, 0, 1, 1, 2, 3],
             corrupt_kinds: vec![],
             entropy_burst: 0,
+            entropy_failure: 0,
         }
     }
 }
@@ -496,11 +499,34 @@ impl WorldA {
                 Ok::<(Vec<u8>, Message), String>((m.to_bytes(), m))
             })
         } else {
-            ctx.os.with_node_prefix(node as u64, burst, || {
-                let mg = MessageGenerator::new(make_measurement(&g.measurement), g.threshold, &g.epoch);
-                let m = Message::generate(&mg, &rnd, aux.as_ref().map(|a| AssociatedData::new(a))).map_err(|e| e.to_string())?;
-                Ok::<(Vec<u8>, Message), String>((m.to_bytes(), m))
-            })
+            // entropy fault: the client's source FAILS (the getrandom call returns an error) for its first
+            // request(s) while the report is built. The library's reaction at this commit is a panic in OsRng;
+            // the client is then a crashed client that reports nothing. A client that carries on regardless
+            // must still not hand out the point another such client hands out.
+            let fail = self.gen.entropy_failure > 0 && ctx.ch.chance(self.gen.entropy_failure, 1000);
+            if fail {
+                ctx.stats.fault("entropy_source_failure");
+                getrandom::sim::fail_next(1 + ctx.ch.draw(3));
+            }
+            let os = &mut ctx.os;
+            let r = crate::runner::guarded(|| {
+                os.with_node_prefix(node as u64, burst, || {
+                    let mg = MessageGenerator::new(make_measurement(&g.measurement), g.threshold, &g.epoch);
+                    let m = Message::generate(&mg, &rnd, aux.as_ref().map(|a| AssociatedData::new(a))).map_err(|e| e.to_string())?;
+                    Ok::<(Vec<u8>, Message), String>((m.to_bytes(), m))
+                })
+            });
+            getrandom::sim::fail_next(0);
+            match r {
+                Ok(x) => x,
+                Err(_) if fail => {
+                    ctx.stats.probe("client_crashed_on_entropy_failure");
+                    self.clients[c].reported = true; // (only consulted to ignore repeated randomness responses)
+                    ev!(ctx, "t={} client {} (group {}) crashed: its entropy source failed", self.sim.now, c, g.id);
+                    return Ok(());
+                }
+                Err((loc, msg)) => return Err(Violation::new("a.generate_failed", "generate_panicked", format!("client {} panicked while generating a report at {}: {}", c, loc, msg))),
+            }
         };
         let (bytes, msg) = match bytes {
             Ok(b) => b,
